@@ -65,10 +65,13 @@ class Stats:
         self.reached = {}       # obligation family -> count of paths on which it was evaluated
         self.samples = []
         self.functions = set()
+        self.violated_families = set()
+        self.skipped_after_violation = 0
 
     def merge(self, o: "Stats"):
+        self.violated_families |= o.violated_families
         for k in ("paths", "decisions", "queries", "solver_time", "obligations", "discharged", "trivial",
-                  "inconclusive", "infeasible"):
+                  "inconclusive", "infeasible", "skipped_after_violation"):
             setattr(self, k, getattr(self, k) + getattr(o, k))
         self.gaps.extend(o.gaps)
         self.unknowns.extend(o.unknowns)
@@ -83,6 +86,7 @@ class Stats:
     def to_dict(self):
         d = dict(self.__dict__)
         d["functions"] = sorted(self.functions)
+        d["violated_families"] = sorted(self.violated_families)
         return d
 
     @classmethod
@@ -90,6 +94,7 @@ class Stats:
         s = cls()
         s.__dict__.update(d)
         s.functions = set(d.get("functions", ()))
+        s.violated_families = set(d.get("violated_families", ()))
         return s
 
 
@@ -109,6 +114,7 @@ class Ctx:
         self.inputs = {}            # name -> z3 const (sym) / python value (conc)
         self.excluded = []          # z3 formulas: known-finding classes assumed away
         self.failed = []            # concrete mode: labels of failed obligations
+        self.failed_families = []
         self.observed = {}          # name -> value (for differential validation)
         self._cleanup = []
         if mode == "sym":
@@ -242,6 +248,10 @@ class Ctx:
         st = self.stats
         fam = family or label
         st.reached[fam] = st.reached.get(fam, 0) + 1
+        if fam in st.violated_families:
+            # a counterexample for this family is already in hand for this scenario: do not pay for more
+            st.skipped_after_violation += 1
+            return None
         st.obligations += 1
         if isinstance(claim, SBool):
             if self.mode != "sym":
@@ -261,7 +271,8 @@ class Ctx:
                 st.inconclusive += 1
                 st.unknowns.append(label)
                 return None
-            m = self.nice_model(neg, *[z3.Not(x) for x in self.excluded]) or self.solver.model()
+            m0 = self.solver.model()
+            m = self.nice_model(neg, *[z3.Not(x) for x in self.excluded]) or m0
             self._violation(label, fam, m)
             return False
         # concrete claim
@@ -282,6 +293,7 @@ class Ctx:
             st.discharged += 1     # path infeasible outside the excluded classes: nothing to show
             return True
         self.failed.append(label)
+        self.failed_families.append(fam)
         return False
 
     def _violation(self, label, fam, m):
@@ -290,6 +302,7 @@ class Ctx:
             v = m.eval(c, model_completion=True)
             mod[name] = model_value(v)
         self.stats.violations.append({"label": label, "family": fam, "model": mod, "trace": list(self.trace)})
+        self.stats.violated_families.add(fam)
 
     def observe(self, name, value):
         self.observed[name] = value
